@@ -490,6 +490,19 @@ func costFamilies(rng *rand.Rand, n int) []struct {
 		b4 = append(b4, 255)
 		out = append(out, fam{"v4-many-empty-options", "v4", b4, 1})
 	}
+	// F5b: every DHCPv4 option code once, each value one instance of the same length (1, 127, 254, 255 octets): nothing is
+	// continued, nothing needs room beyond its own length
+	for _, L := range []int{1, 127, 254, 255} {
+		b4 := append([]byte{}, stdHeader4()...)
+		for code := 1; code <= 254 && len(b4)+2+L+1 <= n; code++ {
+			b4 = append(b4, byte(code), byte(L))
+			for j := 0; j < L; j++ {
+				b4 = append(b4, byte(code+j))
+			}
+		}
+		b4 = append(b4, 255)
+		out = append(out, fam{fmt.Sprintf("v4-every-code-len-%d", L), "v4", b4, 1})
+	}
 	// F6: one DHCPv4 option repeated with maximal / minimal instances
 	{
 		b4 := append([]byte{}, stdHeader4()...)
